@@ -18,14 +18,15 @@ if ! git -C $wt apply $out/patch.diff; then echo "PATCH DOES NOT APPLY"; git -C 
 # demonstration: DEMO_FILES="relpath ..." (copied from the agent's worktree), DEMO_CMD="command run inside the worktree"
 if [ -n "$DEMO_CMD" ]; then
   mkdir -p $out/demo
-  for f in $DEMO_FILES; do mkdir -p $wt/$(dirname $f); cp /tmp/seed-$id/$f $wt/$f; cp /tmp/seed-$id/$f $out/demo/; done
+  # each entry is src[:dst] relative to the agent's worktree / the scratch worktree
+  for e in $DEMO_FILES; do f=${e%%:*}; d=${e##*:}; mkdir -p $wt/$(dirname $d); cp /tmp/seed-$id/$f $wt/$d; cp /tmp/seed-$id/$f $out/demo/$(basename $d); done
   echo "== demo WITH the change (must fail)"
   (cd $wt && eval "$DEMO_CMD" > $out/demo_with.txt 2>&1; echo "demo exit with change: $?") | tee -a $out/demo_result.txt
   git -C $wt apply -R $out/patch.diff
   echo "== demo WITHOUT the change (must pass)"
   (cd $wt && eval "$DEMO_CMD" > $out/demo_without.txt 2>&1; echo "demo exit without change: $?") | tee -a $out/demo_result.txt
   git -C $wt apply $out/patch.diff
-  for f in $DEMO_FILES; do rm -f $wt/$f; done
+  for e in $DEMO_FILES; do rm -f $wt/${e##*:}; done
 fi
 echo "== test suite on patched tree"
 (cd $wt && MUREX_TEST_NO_HTTP=true nice -n -10 go test -vet=off -count=1 -p 3 -json ./... 2>/dev/null | python3 -c "
